@@ -36,7 +36,7 @@ REQUIRED_BUCKETS = ["fault:state", "fault:relay", "fault:cap", "fault:crit", "fa
                     "inv-fault:crit", "silence>maxage:bat", "silence>maxage:inv", "silence<maxage", "set-power-failed",
                     "set-power-succeeded", "blocked-twice(back-off)", "back-off-capped", "recovered", "uncertain-seen",
                     "pool-fallback-to-uncertain", "pool-tier", "pool-fallback-to-uncertain(live)",
-                    "pool-outcome-messages-back-to-back"]
+                    "pool-outcome-messages-back-to-back", "process-in-a-daylight-saving-zone-across-the-end-of-dst"]
 REQUIRED_COUNTERS = ["status_reports_checked", "block_calls_observed", "scripts_run"]
 ASSUMPTIONS = ["virtual clock; fake API"]
 
@@ -81,7 +81,9 @@ def gen(rng: Any, tier: str, i: int) -> Any:
         if rng.random() < (0.3 if failmode else 0.12):
             k = rng.choice(["fail"] * (12 if calm else 3) + ["ok", "none"] if failmode else ["fail", "fail", "ok", "none"])
             ev.append([round(t + 0.006, 3), "sp", k, 0.0])
-    return {"events": ev}
+    # the process may run in a local time zone with daylight saving, and the script may straddle the end of DST
+    # (2024-10-27 01:00 UTC): status decisions are about instants, not about the local wall clock
+    return {"events": ev, "local_dst": rng.random() < 0.25}
 
 
 def _msgs() -> Any:
@@ -98,15 +100,27 @@ def _msgs() -> Any:
     base_b = {"cap": 1000.0, "soc": 50.0, "lo": 10.0, "hi": 90.0, "il": -1000.0, "el": 0.0, "eu": 0.0, "iu": 1000.0}
     base_i = {"il": -1000.0, "el": 0.0, "eu": 0.0, "iu": 1000.0}
 
+    # documented sets (harness side): a battery is usable with relay CLOSED and state IDLE / CHARGING / DISCHARGING, an
+    # inverter in STANDBY / IDLE / CHARGING / DISCHARGING; every other enum member disqualifies. Healthy and faulty
+    # messages cycle through *all* members of the respective set.
+    ok_bstate = [BatteryComponentState.IDLE, BatteryComponentState.CHARGING, BatteryComponentState.DISCHARGING]
+    bad_bstate = [x for x in BatteryComponentState if x not in ok_bstate]
+    bad_relay = [x for x in BatteryRelayState if x != BatteryRelayState.CLOSED]
+    ok_istate = [InverterComponentState.STANDBY, InverterComponentState.IDLE, InverterComponentState.CHARGING,
+                 InverterComponentState.DISCHARGING]
+    bad_istate = [x for x in InverterComponentState if x not in ok_istate]
+    n = {"b": 0, "i": 0}
+
     def bmsg(fault: str | None, age: float) -> Any:
         import dataclasses
 
         m = batdata.mk_battery(BAT, base_b, now() - timedelta(seconds=age))
-        kw: dict[str, Any] = {}
+        n["b"] += 1
+        kw: dict[str, Any] = {"component_state": ok_bstate[n["b"] % len(ok_bstate)]}
         if fault == "state":
-            kw["component_state"] = BatteryComponentState.ERROR
+            kw["component_state"] = bad_bstate[n["b"] % len(bad_bstate)]
         if fault == "relay":
-            kw["relay_state"] = BatteryRelayState.OPENED
+            kw["relay_state"] = bad_relay[n["b"] % len(bad_relay)]
         if fault == "cap":
             kw["capacity"] = float("nan")
         if fault == "crit":
@@ -119,9 +133,10 @@ def _msgs() -> Any:
         import dataclasses
 
         m = batdata.mk_inverter(INV, base_i, now() - timedelta(seconds=age))
-        kw: dict[str, Any] = {}
+        n["i"] += 1
+        kw: dict[str, Any] = {"component_state": ok_istate[n["i"] % len(ok_istate)]}
         if fault == "state":
-            kw["component_state"] = InverterComponentState.ERROR
+            kw["component_state"] = bad_istate[n["i"] % len(bad_istate)]
         if fault == "crit":
             kw["errors"] = [InverterError(code=InverterErrorCode.UNSPECIFIED, level=ErrorLevel.CRITICAL, message="x")]
         return dataclasses.replace(m, **kw) if kw else m
@@ -198,7 +213,25 @@ def check(case: dict[str, Any], rec: Any) -> None:
         return
     out: dict[str, Any] = {"statuses": [], "blocks": [], "unblocks": []}
     mon = LoopMonitor()
-    run_virtual(lambda: _drive(case, out), monitor=mon)
+    if case.get("local_dst"):
+        import os
+        import time as _time
+
+        saved_tz = os.environ.get("TZ")
+        os.environ["TZ"] = "Europe/Berlin"
+        _time.tzset()
+        rec.bucket("process-in-a-daylight-saving-zone-across-the-end-of-dst")
+        try:
+            # virtual start 2024-10-27 00:59:35 UTC: the first 25 s of the script are summer time, the rest winter time
+            run_virtual(lambda: _drive(case, out), start_offset=300 * 86400 + 3575.0, monitor=mon)
+        finally:
+            if saved_tz is None:
+                os.environ.pop("TZ", None)
+            else:
+                os.environ["TZ"] = saved_tz
+            _time.tzset()
+    else:
+        run_virtual(lambda: _drive(case, out), monitor=mon)
     rec.count("scripts_run")
     statuses = out["statuses"]
     events = []
